@@ -374,3 +374,84 @@ func (g *Gen) History(nTx int, withReaders, withReopen bool) []Op {
 	}
 	return ops
 }
+
+// CursorProgram: a multi-leaf bucket is committed, then a write transaction deletes
+// key ranges (possibly emptying whole leaves, or every key) and walks cursors over the
+// mix of on-disk pages and materialised nodes.
+func (g *Gen) CursorProgram() []Op {
+	var ops []Op
+	b := []string{"a"}
+	n := 40 + g.R.Intn(300)
+	vlen := []int{8, 40, 100, g.PageSize / 8}[g.R.Intn(4)]
+	ops = append(ops, Op{K: "beginw"}, Op{K: "mkb", Tx: "w", Key: "a"})
+	for j := 0; j < n; j++ {
+		ops = append(ops, Op{K: "put", Tx: "w", Path: b, Key: fmt.Sprintf("k%05d", j), Val: strings.Repeat("v", vlen)})
+	}
+	if g.R.Intn(3) == 0 {
+		ops = append(ops, Op{K: "mkb", Tx: "w", Path: b, Key: "k00010sub"})
+	}
+	ops = append(ops, Op{K: "commit"})
+	rounds := 1 + g.R.Intn(3)
+	for r := 0; r < rounds; r++ {
+		ops = append(ops, Op{K: "beginw"})
+		nr := 1 + g.R.Intn(3)
+		for k := 0; k < nr; k++ {
+			lo, hi := g.R.Intn(n), g.R.Intn(n+1)
+			if lo > hi {
+				lo, hi = hi, lo
+			}
+			switch g.R.Intn(6) {
+			case 0:
+				lo, hi = 0, n // everything
+			case 1:
+				lo = 0 // a prefix
+			case 2:
+				hi = n // a suffix
+			}
+			for j := lo; j < hi; j++ {
+				ops = append(ops, Op{K: "del", Tx: "w", Path: b, Key: fmt.Sprintf("k%05d", j)})
+			}
+			if g.R.Intn(3) == 0 {
+				ops = append(ops, Op{K: "put", Tx: "w", Path: b, Key: fmt.Sprintf("k%05d", g.R.Intn(n)), Val: "new"})
+			}
+		}
+		for c := 0; c < 2+g.R.Intn(3); c++ {
+			curID++
+			id := curID
+			ops = append(ops, Op{K: "cur", Tx: "w", Path: b, Cur: id})
+			switch g.R.Intn(3) {
+			case 0: // full reverse walk
+				ops = append(ops, Op{K: "clast", Cur: id})
+				for j := 0; j < n+3; j++ {
+					ops = append(ops, Op{K: "cprev", Cur: id})
+				}
+			case 1: // full forward walk
+				ops = append(ops, Op{K: "cfirst", Cur: id})
+				for j := 0; j < n+3; j++ {
+					ops = append(ops, Op{K: "cnext", Cur: id})
+				}
+			default: // mixed
+				for j := 0; j < 30+g.R.Intn(60); j++ {
+					switch g.R.Intn(7) {
+					case 0:
+						ops = append(ops, Op{K: "cfirst", Cur: id})
+					case 1:
+						ops = append(ops, Op{K: "clast", Cur: id})
+					case 2, 3:
+						ops = append(ops, Op{K: "cnext", Cur: id})
+					case 4, 5:
+						ops = append(ops, Op{K: "cprev", Cur: id})
+					default:
+						ops = append(ops, Op{K: "cseek", Cur: id, Key: fmt.Sprintf("k%05d", g.R.Intn(n+2))})
+					}
+				}
+			}
+		}
+		if g.R.Intn(3) == 0 {
+			ops = append(ops, Op{K: "rollback"})
+		} else {
+			ops = append(ops, Op{K: "commit"})
+		}
+	}
+	return ops
+}
